@@ -239,7 +239,12 @@ def property_on_real_code(ctx: Ctx, m, is_nfa: bool) -> Tuple[Optional[str], Opt
         return s, None
     a, b = m.accepts_input(w), n.accepts_input(w)
     if a == b:
-        raise InfraError(f"oracle disagrees with accepts_input on {w!r} for {m!r} / {s!r}")
+        # the transition tables of the source and of the compiled regex differ on w, but the library's
+        # reader answers alike: the reader does not follow the tables on this tree (broken too, C01)
+        ctx.stat("tables_differ_reader_agrees")
+        return s, (f"to_regex() = {s!r} denotes a different language: the transition tables of the source and of "
+                   f"NFA.from_regex({s!r}) differ on {w!r} (the library's reader answers {a} for both: it does "
+                   f"not follow the tables here)")
     return s, (f"to_regex() = {s!r} denotes a different language: source accepts {w!r} = {a}, "
                f"NFA.from_regex({s!r}) accepts it = {b}")
 
@@ -315,7 +320,7 @@ def check_reserved_source(ctx: Ctx, m, is_nfa: bool, origin: str):
             a = m.accepts_input(w)
             b = all(c in n.input_symbols for c in w) and n.accepts_input(w)
             if a == b:
-                raise InfraError(f"oracle disagrees with accepts_input on {w!r} for {m!r} / {s!r}")
+                ctx.stat("tables_differ_reader_agrees")
             failure += (f"; with the inferred alphabet NFA.from_regex({s!r}) compiles but "
                         f"{'accepts' if b else 'rejects'} {w!r} wrongly")
         except InfraError:
